@@ -323,3 +323,85 @@ func VerifC11_Forwarding() {
 		}
 	}
 }
+
+// VerifC11_RoundsThenForwarding: two registration rounds with any two sets out of two validators
+// (a validator may join or leave between the rounds), then a registration for each of the two
+// arriving on the builder API. Vouch registers exactly the validators of each round; what arrives from
+// outside is dropped for the validators of the latest round - Vouch registers those itself - and
+// forwarded unchanged to the relays of every other validator, one that has left included.
+func VerifC11_RoundsThenForwarding() {
+	util.VerifResetBuilderClients()
+	relay := &c11Relay{name: c11RelayNames[0]}
+	util.VerifSetBuilderClient(relay.name, relay)
+	cfg := &c11Config{unresolvable: map[uint64]bool{}, relays: map[uint64][]string{}, settings: map[uint64]map[string]c11Setting{}}
+	signer := &c11Signer{failFor: map[uint64]bool{}}
+	s := relayNew(vstub.NewChainTime(0))
+	s.validatorRegistrationSigner, s.executionConfig = signer, cfg
+	accs := [2]*vstub.Account{}
+	for i := range accs {
+		tag := uint64(i + 1)
+		accs[i] = &vstub.Account{Tag: tag, VIndex: tag, Nm: "acc"}
+		accs[i].Key.B[0] = byte(0x40 + i)
+		cfg.relays[tag] = []string{relay.name}
+		cfg.settings[tag] = map[string]c11Setting{relay.name: {fee: bellatrix.ExecutionAddress{byte(0xa0 + i)}, gas: 30000000}}
+	}
+	var in [2][2]bool // in[round][validator]
+	for round := 0; round < 2; round++ {
+		accounts := map[phase0.ValidatorIndex]e2wtypes.Account{}
+		for i := range accs {
+			in[round][i] = vnd.Bool("validator-in-round")
+			if in[round][i] {
+				accounts[phase0.ValidatorIndex(i+1)] = accs[i]
+			}
+		}
+		before := len(relay.calls)
+		_ = s.submitValidatorRegistrationsForAccounts(context.Background(), accounts)
+		vnd.Quiesce()
+		for i := range accs {
+			got := 0
+			for _, batch := range relay.calls[before:] {
+				for _, reg := range batch {
+					if reg.V1.Message.Pubkey[0] == byte(0x40+i) {
+						got++
+					}
+				}
+			}
+			want := 0
+			if in[round][i] {
+				want = 1
+			}
+			vnd.Assert(got == want, "C11.rounds.exactly-the-validators-of-the-round-are-registered")
+		}
+	}
+	if in[0][0] && !in[1][0] {
+		vnd.Cover("C11.rounds.validator-left-between-rounds")
+	}
+	// registrations from outside (a beacon node's validator client) for both validators
+	var theirs []*types.SignedValidatorRegistration
+	for i := range accs {
+		var key phase0.BLSPubKey
+		key[0] = byte(0x40 + i)
+		theirs = append(theirs, &types.SignedValidatorRegistration{Signature: phase0.BLSSignature{0x77, byte(i)}, Message: &types.ValidatorRegistration{
+			FeeRecipient: bellatrix.ExecutionAddress{0x55, byte(i)}, GasLimit: 29000000, Timestamp: time.Unix(1700000000, 0), Pubkey: key}})
+	}
+	before := len(relay.calls)
+	_, err := s.ValidatorRegistrations(context.Background(), theirs)
+	vnd.Assert(err == nil, "C11.rounds.forwarding-no-error")
+	vnd.Quiesce()
+	for i := range accs {
+		got := 0
+		for _, batch := range relay.calls[before:] {
+			for _, reg := range batch {
+				if reg.V1.Message.Pubkey == theirs[i].Message.Pubkey {
+					got++
+					vnd.Assert(reg.V1.Signature == theirs[i].Signature && reg.V1.Message.FeeRecipient == theirs[i].Message.FeeRecipient && reg.V1.Message.GasLimit == theirs[i].Message.GasLimit, "C11.rounds.forwarded-unchanged")
+				}
+			}
+		}
+		want := 1
+		if in[1][i] {
+			want = 0 // Vouch registers this validator itself
+		}
+		vnd.Assert(got == want, "C11.rounds.dropped-for-the-validators-of-the-latest-round-forwarded-for-all-others")
+	}
+}
